@@ -40,6 +40,39 @@ theorem constructor_calls : Gen.constructorCalls =
     [("bounded", "true", "size"), ("bounded_async", "true", "size"),
      ("unbounded", "false", "UNBOUNDED_STARTING_SIZE"), ("unbounded_async", "false", "UNBOUNDED_STARTING_SIZE")] := by decide
 
+/-- The wrappers that take no lock are what they were when the models were written: conversions are `transmute`s of the `repr(C)` one-field
+    handles, `AsyncSender::send` / `AsyncReceiver::recv` / `stream` only construct the future / stream (`state = Zero`, a fresh `LOCKED` signal,
+    `is_stream` set by `new_borrowed`, `terminated = false`), `Iterator::next` is `recv().ok()`, `FusedStream::is_terminated` is the receiver's,
+    the four constructors hand the one shared state to one sender and one receiver, `read_local_data` / `drop_local_data` choose by the size test. -/
+theorem glue_ok : Gen.glue = [
+  ("Sender::to_async", "{ unsafe { transmute ( self ) } }"),
+  ("Sender::as_async", "{ unsafe { transmute ( self ) } }"),
+  ("AsyncSender::send", "{ SendFuture :: new ( & self . internal , data ) }"),
+  ("AsyncSender::to_sync", "{ unsafe { transmute ( self ) } }"),
+  ("AsyncSender::as_sync", "{ unsafe { transmute ( self ) } }"),
+  ("Receiver::to_async", "{ unsafe { transmute ( self ) } }"),
+  ("Receiver::as_async", "{ unsafe { transmute ( self ) } }"),
+  ("Iterator_Receiver::next", "{ self . recv ( ) . ok ( ) }"),
+  ("AsyncReceiver::recv", "{ ReceiveFuture :: new_ref ( & self . internal ) }"),
+  ("AsyncReceiver::stream", "{ ReceiveStream :: new_borrowed ( self ) }"),
+  ("AsyncReceiver::to_sync", "{ unsafe { transmute ( self ) } }"),
+  ("AsyncReceiver::as_sync", "{ unsafe { transmute ( self ) } }"),
+  ("top::bounded", "{ let internal = ChannelInternal :: new ( true , size ) ; ( Sender { internal : internal . clone ( ) , } , Receiver { internal } , ) }"),
+  ("top::bounded_async", "{ let internal = ChannelInternal :: new ( true , size ) ; ( AsyncSender { internal : internal . clone ( ) , } , AsyncReceiver { internal } , ) }"),
+  ("top::unbounded", "{ let internal = ChannelInternal :: new ( false , UNBOUNDED_STARTING_SIZE ) ; ( Sender { internal : internal . clone ( ) , } , Receiver { internal } , ) }"),
+  ("top::unbounded_async", "{ let internal = ChannelInternal :: new ( false , UNBOUNDED_STARTING_SIZE ) ; ( AsyncSender { internal : internal . clone ( ) , } , AsyncReceiver { internal } , ) }"),
+  ("FutureState::is_waiting", "{ * self == FutureState :: Waiting }"),
+  ("FutureState::is_done", "{ * self == FutureState :: Done }"),
+  ("SendFuture::new", "{ if size_of :: < T > ( ) > size_of :: < * mut T > ( ) { SendFuture { state : FutureState :: Zero , internal , sig : Signal :: new_async ( ) , data : MaybeUninit :: new ( data ) , _pinned : PhantomPinned , } } else { SendFuture { state : FutureState :: Zero , internal , sig : Signal :: new_async_ptr ( KanalPtr :: new_owned ( data ) ) , data : MaybeUninit :: uninit ( ) , _pinned : PhantomPinned , } } }"),
+  ("SendFuture::read_local_data", "{ if size_of :: < T > ( ) > size_of :: < * mut T > ( ) { core :: ptr :: read ( self . data . as_ptr ( ) ) } else { self . sig . assume_init ( ) } }"),
+  ("SendFuture::drop_local_data", "{ if size_of :: < T > ( ) > size_of :: < * mut T > ( ) { self . data . assume_init_drop ( ) ; } else { self . sig . load_and_drop ( ) ; } }"),
+  ("ReceiveFuture::read_local_data", "{ if size_of :: < T > ( ) > size_of :: < * mut T > ( ) { core :: ptr :: read ( self . data . as_ptr ( ) ) } else { self . sig . assume_init ( ) } }"),
+  ("ReceiveFuture::drop_local_data", "{ if size_of :: < T > ( ) > size_of :: < * mut T > ( ) { self . data . assume_init_drop ( ) ; } else { self . sig . load_and_drop ( ) ; } }"),
+  ("ReceiveFuture::new_ref", "{ Self { state : FutureState :: Zero , sig : Signal :: new_async ( ) , internal , data : MaybeUninit :: uninit ( ) , is_stream : false , _pinned : PhantomPinned , } }"),
+  ("FusedStream_ReceiveStream::is_terminated", "{ self . receiver . is_terminated ( ) }"),
+  ("ReceiveStream::new_borrowed", "{ let mut future = receiver . recv ( ) ; future . is_stream = true ; ReceiveStream { future : Box :: pin ( future ) , terminated : false , receiver , } }")
+] := rfl
+
 /-! ### the methods of `ChannelInternal` are the functions of `Kanal.Chan` -/
 
 theorem next_send_eq (c : Chan) (k : Chan → Option SigId → Act) :
@@ -411,6 +444,7 @@ end Kanal
 
 #print axioms Kanal.TieCode.translation_complete
 #print axioms Kanal.TieCode.translated_functions
+#print axioms Kanal.TieCode.glue_ok
 #print axioms Kanal.TieCode.new_eq
 #print axioms Kanal.TieCode.constructor_calls
 #print axioms Kanal.TieCode.poll_next
